@@ -1,2 +1,92 @@
 import STProofs.EnergyIntegral
-/-! # C04 — reported energy = ∫ ‖x⁽ˢ⁾‖² (over ℝ), non-negative, sum over coordinates -/
+import STProofs.Structure
+import Mathlib.Algebra.BigOperators.Intervals
+/-!
+# C04 — reported energy = ∫ ‖x⁽ˢ⁾‖² (over ℝ), non-negative, sum over coordinates
+
+Per coordinate: `cubic/quintic/septic_energy_integral` (closed form of one segment = ∫₀ᵀ (p⁽ˢ⁾)²), `…_energy_total` (sum over
+segments), `…_energy_nonneg`.  For the D-dimensional object the user holds: `C04.energyND_integral` — the energy it reports is
+the sum over coordinates and segments of those integrals, i.e. ∫ ‖x⁽ˢ⁾(t)‖² dt of the published trajectory, and it is
+non-negative (`C04.energyND_nonneg`).
+-/
+open ST
+open scoped BigOperators
+
+namespace C04
+
+/-- ∑ over segments of ∫₀^{T_i} (s-th derivative of coordinate j's piece i)², for the three orders -/
+noncomputable def colEnergyInt (o : Order) (h : List ℝ) (P : List (Vec ℝ)) (bc : BC ℝ) (j : Nat) : ℝ :=
+  let Pj := P.map (fun r => getC r j)
+  match o with
+  | .cubic => Cubic.energyInt h (Cubic.build h Pj (getC bc.v0 j) (getC bc.vn j))
+  | .quintic => Quintic.energyInt h (Quintic.build h Pj ⟨getC bc.v0 j, getC bc.a0 j⟩ ⟨getC bc.vn j, getC bc.an j⟩)
+  | .septic => Septic.energyInt h (Septic.build h Pj ⟨getC bc.v0 j, getC bc.a0 j, getC bc.j0 j⟩
+                  ⟨getC bc.vn j, getC bc.an j, getC bc.jn j⟩)
+
+theorem stsum_range (d : Nat) (F : Nat → ℝ) : ST.sum ((List.range d).map F) = ∑ j ∈ Finset.range d, F j := by
+  have h : ∀ l : List ℝ, ST.sum l = l.sum := by
+    intro l; induction l with
+    | nil => simp [ST.sum, lit_eq]
+    | cons x xs ih => simp [ST.sum, ih]
+  rw [h]
+  induction d with
+  | zero => simp
+  | succ d ih => rw [List.range_succ, List.map_append, List.sum_append, Finset.sum_range_succ, ih]; simp
+
+/-- **the energy reported by the D-dimensional spline is the integral of the squared s-th derivative of its trajectory**
+(sum over coordinates and segments), for every order, dimension, N and duration vector -/
+theorem energyND_integral (o : Order) (d : Nat) (h : List ℝ) (P : List (Vec ℝ)) (t0 : ℝ) (bc : BC ℝ) :
+    (buildND o d h P t0 bc).energy = ∑ j ∈ Finset.range d, colEnergyInt o h P bc j := by
+  rw [(energy_is_sum o d h P t0 bc).1, stsum_range]
+  apply Finset.sum_congr rfl
+  intro j _
+  cases o with
+  | cubic => simp only [colOf, colCubic, colEnergyInt, cubic_energy_total]
+  | quintic => simp only [colOf, colQuintic, colEnergyInt, quintic_energy_total]
+  | septic => simp only [colOf, colSeptic, colEnergyInt, septic_energy_total]
+
+theorem cubic_energyInt_nonneg (Ts : List ℝ) (cs : List (Cubic.C4 ℝ)) (hT : ∀ T ∈ Ts, 0 ≤ T) : 0 ≤ Cubic.energyInt Ts cs := by
+  induction Ts generalizing cs with
+  | nil => cases cs <;> simp [Cubic.energyInt]
+  | cons T Ts ih =>
+    cases cs with
+    | nil => simp [Cubic.energyInt]
+    | cons c cs =>
+      simp only [Cubic.energyInt]
+      exact add_nonneg (intervalIntegral.integral_nonneg (hT T (by simp)) (fun t _ => sq_nonneg _))
+        (ih cs (fun x hx => hT x (by simp [hx])))
+
+theorem quintic_energyInt_nonneg (Ts : List ℝ) (cs : List (Quintic.C6 ℝ)) (hT : ∀ T ∈ Ts, 0 ≤ T) : 0 ≤ Quintic.energyInt Ts cs := by
+  induction Ts generalizing cs with
+  | nil => cases cs <;> simp [Quintic.energyInt]
+  | cons T Ts ih =>
+    cases cs with
+    | nil => simp [Quintic.energyInt]
+    | cons c cs =>
+      simp only [Quintic.energyInt]
+      exact add_nonneg (intervalIntegral.integral_nonneg (hT T (by simp)) (fun t _ => sq_nonneg _))
+        (ih cs (fun x hx => hT x (by simp [hx])))
+
+theorem septic_energyInt_nonneg (Ts : List ℝ) (cs : List (Septic.C8 ℝ)) (hT : ∀ T ∈ Ts, 0 ≤ T) : 0 ≤ Septic.energyInt Ts cs := by
+  induction Ts generalizing cs with
+  | nil => cases cs <;> simp [Septic.energyInt]
+  | cons T Ts ih =>
+    cases cs with
+    | nil => simp [Septic.energyInt]
+    | cons c cs =>
+      simp only [Septic.energyInt]
+      exact add_nonneg (intervalIntegral.integral_nonneg (hT T (by simp)) (fun t _ => sq_nonneg _))
+        (ih cs (fun x hx => hT x (by simp [hx])))
+
+/-- the reported energy is non-negative (non-negative durations suffice) -/
+theorem energyND_nonneg (o : Order) (d : Nat) (h : List ℝ) (P : List (Vec ℝ)) (t0 : ℝ) (bc : BC ℝ) (hT : ∀ T ∈ h, 0 ≤ T) :
+    0 ≤ (buildND o d h P t0 bc).energy := by
+  rw [energyND_integral]
+  apply Finset.sum_nonneg
+  intro j _
+  cases o with
+  | cubic => exact cubic_energyInt_nonneg _ _ hT
+  | quintic => exact quintic_energyInt_nonneg _ _ hT
+  | septic => exact septic_energyInt_nonneg _ _ hT
+
+end C04
